@@ -69,7 +69,7 @@ theorem names_map_withKind (ps : List Param) (k : Kind) : names (ps.map (·.with
 
 theorem names_singleton (x : Param) : names [x] = [x.name] := rfl
 
-theorem mem_names_of_mem {p : Param} {ps : List Param} (h : p ∈ ps) : p.name ∈ names ps :=
+theorem mem_names_of_mem_C08 {p : Param} {ps : List Param} (h : p ∈ ps) : p.name ∈ names ps :=
   List.mem_map.2 ⟨p, h, rfl⟩
 
 /-! ### the invariant -/
